@@ -164,6 +164,7 @@ struct World {
         std::mutex idx_mu;
         auto add = [&](Event e) { std::lock_guard<std::mutex> g(log_mu); log.push_back(std::move(e)); };
         std::atomic<int> done_ops{0}, calls_done{0};
+        std::atomic<bool> s_logged{false};
         std::promise<void> returned;
         std::future<void> fut = returned.get_future();
         const uint64_t wseed = rng.rand64();
@@ -178,6 +179,7 @@ struct World {
             for (int call = 0; call < calls; ++call) {
                 if (call > 0) delay(wr);
                 add({"S"});
+                s_logged.store(true);
                 std::unique_ptr<interfaces::BlockTemplate> nt = prev->waitNext(wo);
                 if (nt) {
                     CAmount f = 0; for (CAmount x : nt->getTxFees()) f += x;
@@ -198,6 +200,15 @@ struct World {
                 {
                     const auto t0 = std::chrono::steady_clock::now();
                     while (fin >= 1 && calls_done.load() < fin && std::chrono::steady_clock::now() - t0 < std::chrono::seconds(30)) std::this_thread::yield();
+                }
+                // the waiter is due to start after `startk` completed operations: the driver lets it log its call start first (on a loaded
+                // machine the new thread would otherwise start after the whole schedule), then gives it a random moment to get going
+                if ((int)i == startk) {
+                    const auto t0 = std::chrono::steady_clock::now();
+                    while (!s_logged.load() && std::chrono::steady_clock::now() - t0 < std::chrono::seconds(30)) std::this_thread::yield();
+                    static const int us[] = {0, 0, 50, 300, 1000, 3000};
+                    const int d = us[rng.randrange(6)];
+                    if (d) std::this_thread::sleep_for(std::chrono::microseconds(d));
                 }
                 delay(rng);
                 const std::string k = sched[i]["k"].get_str();
